@@ -1,6 +1,202 @@
 import Driver.Util
-/-! Model driver stub (owned by the MptStore work package). -/
+import Verif.Model.MptStore
+/-! Model driver for the store-layer suites c03/c04/c05 (op language: /verif/go/harness/mptstore.go). -/
 namespace Driver.MptStore
-def step (s : Unit) (_w : List String) : Unit × String := (s, "unimplemented")
-def main : IO Unit := Driver.loop () step
+open Verif.Mpt Verif.MptStore Driver
+
+structure St where
+  ps : PStore := {}
+  tries : List (Nat × Nat × Trie) := []        -- id, parent id, trie
+  saved : List (Nat × Bytes × Node) := []      -- version, root, tree of every saved round (oldest first)
+
+def maxPrune : Nat := 1000
+
+def rootStr (k : Bytes) : String := if k.isEmpty then "-" else hex k
+
+def sortStr (l : List String) : List String := (l.toArray.qsort (· < ·)).toList
+
+def fmtPairs (ps : List (List Nib × Bytes)) : String :=
+  ",".intercalate (ps.map (fun (p, b) => ptok p ++ "=" ++ hex b))
+
+def findTrie (s : St) (id : Nat) : Option (Nat × Trie) :=
+  (s.tries.find? (fun e => e.1 = id)).map (·.2)
+
+def setTrie (s : St) (id : Nat) (t : Trie) : St :=
+  { s with tries := s.tries.map (fun e => if e.1 = id then (e.1, e.2.1, t) else e) }
+
+/-- ids of all descendants of `id` -/
+partial def descendants (s : St) (id : Nat) : List Nat :=
+  let ch := (s.tries.filter (fun e => e.2.1 = id ∧ e.1 ≠ id)).map (·.1)
+  ch ++ ch.flatMap (descendants s)
+
+def closeTrie (s : St) (id : Nat) : St :=
+  let gone := id :: descendants s id
+  { s with tries := s.tries.filter (fun e => !gone.contains e.1) }
+
+/-- read-through lookup of a trie's layered store: own level, the ancestors' levels, the persistent store -/
+partial def getChain (s : St) (id : Nat) (k : Bytes) : Option Bytes :=
+  match findTrie s id with
+  | none => Map.get s.ps.nodes k
+  | some (pid, t) =>
+    match Map.get t.db.current k with
+    | some v => some v
+    | none => if pid = id then Map.get s.ps.nodes k else getChain s pid k
+
+/-- (key, stored encoding) of every node of a tree in one bottom-up pass; returns the key of the root node first.
+    Same values as `refs`/`Ref.key`/`Ref.encode` of the model, without recomputing subtree hashes. -/
+def annot : Node → List Nib → Bytes × List (Bytes × Bytes)
+  | .empty, _ => ([], [])
+  | .leaf o lp lv, pre =>
+    let b := pre.map nibChar ++ [sep] ++ lp.map nibChar ++ [sep] ++ lv
+    let k := sha3 (le64 o ++ b)
+    (k, [(k, [2] ++ le64 o ++ le64 o ++ b)])
+  | .full o ch val, pre =>
+    let rs := (List.finRange 16).map (fun i => annot (ch i) (pre ++ [i]))
+    let b := rs.flatMap (fun r => (if r.1.isEmpty then [] else hexBytes r.1) ++ [sep]) ++ (match val with | some b => b | none => [])
+    let k := sha3 (le64 o ++ b)
+    (k, (k, [4] ++ le64 o ++ le64 o ++ b) :: rs.flatMap (·.2))
+  | .ext o ep c, pre =>
+    let r := annot c (pre ++ ep)
+    let b := ep.map nibChar ++ [sep] ++ r.1
+    let k := sha3 (le64 o ++ b)
+    (k, (k, [8] ++ le64 o ++ le64 o ++ b) :: r.2)
+
+def resolvesFast (get : Bytes → Option Bytes) (t : Node) : Bool :=
+  (annot t []).2.all (fun e => get e.1 == some e.2)
+
+def fmtEvents (es : List Event) : String :=
+  ",".intercalate (es.filterMap (fun e =>
+    match e with
+    | .put none n => some ("p:-:" ++ hex (n.key sha3))
+    | .put (some o) n =>
+      let ok := o.key sha3
+      let nk := n.key sha3
+      if ok = nk then none else some ("p:" ++ hex ok ++ ":" ++ hex nk)
+    | .del o => some ("d:" ++ hex (o.key sha3))))
+
+def observe (s : St) (id : Nat) (t : Trie) : String :=
+  let it :=
+    if resolvesFast (getChain s id) t.tree then fmtPairs (iterate t.tree []) else "!unresolved"
+  let ch := sortStr (t.cc.getChanges.map (fun c =>
+    hex (c.new.key sha3) ++ (match c.old with | some o => "<" ++ hex (o.key sha3) | none => "")))
+  let dl := sortStr (t.cc.getDeletes.map (fun d => hex (d.key sha3)))
+  let cur := sortStr (t.db.current.map (fun e => hex e.1))
+  let gone := sortStr (t.db.deleted.map hex)
+  "ok root=" ++ rootStr t.root ++ " iter=" ++ it ++ " changes=" ++ ",".intercalate ch ++ " deletes=" ++ ",".intercalate dl
+    ++ " cur=" ++ ",".intercalate cur ++ " gone=" ++ ",".intercalate gone
+
+/-- the replay order of a merge (see `adversarialOrder` in go/harness/mptstore.go): if some key is both the New of one
+    change and the Old of another, creations of such keys first, then the rest, by New key within a rank; otherwise
+    the collector's own order (the outcome does not depend on it) -/
+def mergeOrder (cs : List (Change Ref)) : List (Change Ref) :=
+  let olds := cs.filterMap (fun c => c.old.map (fun o => o.key sha3))
+  let keyed := cs.map (fun c => (c.new.key sha3, c))
+  if keyed.any (fun e => olds.contains e.1) then
+    let rank0 := keyed.filter (fun e => olds.contains e.1)
+    let rank1 := keyed.filter (fun e => !olds.contains e.1)
+    let srt := fun (l : List (Bytes × Change Ref)) => (l.toArray.qsort (fun a b => hex a.1 < hex b.1)).toList
+    (srt rank0 ++ srt rank1).map (·.2)
+  else cs
+
+def lastSaved (s : St) : Bytes × Node :=
+  match s.saved.getLast? with
+  | some (_, r, t) => (r, t)
+  | none => ([], .empty)
+
+def nodeCount (s : St) : String := toString s.ps.nodes.length
+
+def sortedNodes (m : Store) : List (Bytes × Bytes) :=
+  (m.toArray.qsort (fun a b => hex a.1 < hex b.1)).toList
+
+def pstoreLine (s : St) : String :=
+  let ns := sortedNodes s.ps.nodes
+  let cat := ns.flatMap (fun e => e.1 ++ e.2)
+  let recs := (s.ps.dead.toArray.qsort (fun a b => a.1 < b.1)).toList
+  let ds := recs.map (fun e => toString e.1 ++ ":" ++ ",".intercalate (sortStr (e.2.map hex)))
+  "ok keys=" ++ ",".intercalate (ns.map (fun e => hex e.1)) ++ " vd=" ++ hex (sha3 cat) ++ " dead=" ++ ";".intercalate ds
+
+def doSave (s : St) (t : Trie) (k : Option Nat) : St :=
+  let stream := saveStream sha3 t
+  let ps1 := match k with
+    | some k => s.ps.applyAll (stream.take k)   -- the crashed attempt; the round is then re-executed and saved again
+    | none => s.ps
+  { s with ps := ps1.applyAll stream, saved := s.saved ++ [(t.version, t.root, t.tree)] }
+
+def step (s : St) (w : List String) : St × String :=
+  match w with
+  | ["light"] => (s, "ok")
+  | ["round", v] =>
+    let (r, tree) := lastSaved s
+    ({ s with tries := [(0, 0, Trie.open r tree v.toNat!)] }, "ok " ++ rootStr r)
+  | ["child", id, pid] =>
+    let id := id.toNat!
+    match findTrie s pid.toNat!, findTrie s id with
+    | some (_, p), none =>
+      if id = 0 then (s, "bad-op")
+      else ({ s with tries := s.tries ++ [(id, pid.toNat!, Trie.open p.root p.tree p.version)] }, "ok " ++ rootStr p.root)
+    | _, _ => (s, "bad-op")
+  | ["ins", id, p, b] =>
+    match findTrie s id.toNat!, parsePath p, unhex b with
+    | some (_, t), some p, some b =>
+      let (t', es) := t.insert sha3 p b
+      (setTrie s id.toNat! t', "ok " ++ rootStr t'.root ++ " ev=" ++ fmtEvents es)
+    | _, _, _ => (s, "bad-op")
+  | ["del", id, p] =>
+    match findTrie s id.toNat!, parsePath p with
+    | some (_, t), some p =>
+      match t.delete sha3 p with
+      | (t', .ok, es) => (setTrie s id.toNat! t', "ok " ++ rootStr t'.root ++ " ev=" ++ fmtEvents es)
+      | (_, .notPresent, _) => (s, "notpresent")
+      | (_, _, _) => (s, "panic")
+    | _, _ => (s, "bad-op")
+  | ["get", id, p] =>
+    match findTrie s id.toNat!, parsePath p with
+    | some (_, t), some p => (s, match lookup t.tree p with | some b => "ok " ++ hex b | none => "notpresent")
+    | _, _ => (s, "bad-op")
+  | ["merge", id] =>
+    let id := id.toNat!
+    match findTrie s id with
+    | some (pid, c) =>
+      if id = 0 then (s, "bad-op") else
+      match findTrie s pid with
+      | some (_, p) =>
+        match mergeMPTChangesOrd sha3 p c (mergeOrder c.cc.getChanges) with
+        | .ok p' => (closeTrie (setTrie s pid p') id, "ok " ++ rootStr p'.root)
+        | .stale => (s, "stale")
+      | none => (s, "bad-op")
+    | none => (s, "bad-op")
+  | ["discard", id] =>
+    let id := id.toNat!
+    match findTrie s id with
+    | some _ => if id = 0 then (s, "bad-op") else (closeTrie s id, "ok")
+    | none => (s, "bad-op")
+  | ["observe", id] =>
+    match findTrie s id.toNat! with
+    | some (_, t) => (s, observe s id.toNat! t)
+    | none => (s, "bad-op")
+  | ["save"] =>
+    match findTrie s 0 with
+    | some (_, t) => let s' := doSave s t none; (s', "ok " ++ rootStr t.root ++ " n=" ++ nodeCount s')
+    | none => (s, "bad-op")
+  | ["crash-save", k] =>
+    match findTrie s 0 with
+    | some (_, t) => let s' := doSave s t (some k.toNat!); (s', "ok " ++ rootStr t.root ++ " n=" ++ nodeCount s')
+    | none => (s, "bad-op")
+  | ["reopen", i] =>
+    match s.saved[i.toNat!]? with
+    | some (_, _, tree) =>
+      if resolvesFast (Map.get s.ps.nodes) tree then (s, "ok " ++ fmtPairs (iterate tree [])) else (s, "missing")
+    | none => (s, "bad-op")
+  | ["prune", v] =>
+    let s' := { s with ps := s.ps.applyAll (pruneStream maxPrune s.ps v.toNat!) }
+    (s', "ok n=" ++ nodeCount s')
+  | ["crash-prune", v, k] =>
+    let ps1 := s.ps.applyAll ((pruneStream maxPrune s.ps v.toNat!).take k.toNat!)
+    let s' := { s with ps := ps1.applyAll (pruneStream maxPrune ps1 v.toNat!) }
+    (s', "ok n=" ++ nodeCount s')
+  | ["pstore"] => (s, pstoreLine s)
+  | _ => (s, "bad-op")
+
+def main : IO Unit := loop ({} : St) step
+
 end Driver.MptStore
